@@ -122,7 +122,22 @@ func (se *SessEstablishedStage) handleMsgIn(msg msgs.Message) (err error) {
 		// nothing to do
 
 	default:
-		se.state.ExchangeMsgIn <- msg
+		// The consumer of ExchangeMsgIn answers, e.g., with acknowledgements, through ExchangeMsgOut, which only this
+		// Stage empties. Outgoing messages are therefore passed on while the consumer is busy. Otherwise, both would
+		// wait for each other for ever as soon as the two channels are filled.
+		for delivered := false; !delivered && err == nil; {
+			select {
+			case se.state.ExchangeMsgIn <- msg:
+				delivered = true
+
+			case out := <-se.state.ExchangeMsgOut:
+				err = se.messageOut(out)
+
+			case <-se.closeChan:
+				_ = se.messageOut(msgs.NewSessionTerminationMessage(0, msgs.TerminationUnknown))
+				err = StageClose
+			}
+		}
 	}
 	return
 }
